@@ -419,7 +419,11 @@ fn gen_rounds(rng: &mut Rng, valid_only: bool) -> (usize, usize, Vec<RoundIn>) {
                     let rtt = *rng.pick(&[0u64, 1, 999, 1_000_000, 1_500_000, 3_000_000, 5_000_000, 123_456_789, 2_000_000_000]) + rng.below(1000);
                     let received = if rng.chance(1, 30) { sent.saturating_sub(5) } else { sent + rtt };
                     let host = pool[(usize::from(t) + variant * (usize::from(t) % 2)) % pool.len()];
-                    let (e, a) = if dublin { let e = 0x1111u16; (Some(Checksum(e)), Some(Checksum(if rng.chance(1, 4) { rng.next() as u16 } else { e }))) } else if rng.chance(1, 10) { (Some(Checksum(1)), None) } else { (None, None) };
+                    let (e, a) = if dublin {
+                        // (a rewriting device may leave any checksum behind, also 0 = "no checksum" or the same value for every later hop)
+                        let e = *rng.pick(&[0x1111u16, 0x1111, 0x1111, 0, 0xFFFF]);
+                        (Some(Checksum(e)), Some(Checksum(match rng.below(8) { 0 => rng.next() as u16, 1 => 0, 2 => 0xFFFF, _ => e })))
+                    } else if rng.chance(1, 10) { (Some(Checksum(1)), None) } else { (None, None) };
                     probes.push(ProbeStatus::Complete(ProbeComplete {
                         sequence: Sequence(seq), identifier: TraceId(7), src_port: Port(5000), dest_port: Port(seq), ttl: TimeToLive(t), round: RoundId(round_id), sent: vclock::from_ns(sent),
                         host, received: vclock::from_ns(received),
